@@ -84,6 +84,17 @@ impl<'a> InputGen<'a> {
                 }
                 list(&mut self.ids, name, inner)
             }
+            Ty::Bytes => {
+                let n = rng.below(5);
+                let vals: Vec<u64> = (0..n).map(|_| *rng.pick(&[0u64, 1, 7, 66, 100, 255, 128])).collect();
+                if rng.chance(1, 5) {
+                    let text = format!("[{}]", vals.iter().map(|v| v.to_string()).collect::<Vec<_>>().join(", "));
+                    nv(&mut self.ids, name, str_lit(rng, &text))
+                } else {
+                    let elems = vals.iter().map(|v| if rng.chance(1, 4) { str_lit(rng, &v.to_string()) } else { int_lit(rng, *v) }).collect();
+                    nv(&mut self.ids, name, Lit::Array(elems))
+                }
+            }
             Ty::Recv(id) | Ty::BoxRecv(id) => {
                 let r = &self.recvs[*id];
                 match &r.shape {
@@ -317,7 +328,22 @@ impl<'a> InputGen<'a> {
                     return None;
                 }
                 let k = *rng.pick(&cands);
-                let bad = match rng.below(7) {
+                // one bad element inside an array value
+                if let Kind::Nv(Lit::Array(elems)) = &mut items[k].kind {
+                    if !elems.is_empty() && rng.chance(2, 3) {
+                        let j = rng.below(elems.len());
+                        elems[j] = match rng.below(5) {
+                            0 => Lit::Str { value: "x".into(), raw: false },
+                            1 => Lit::Int { digits: "300".into(), text: "300".into() },
+                            2 => Lit::Char('c'),
+                            3 => Lit::Float { text: "1.5".into() },
+                            _ => Lit::Expr("a::b".into()),
+                        };
+                        return Some("bad-array-element");
+                    }
+                }
+                let bad = match rng.below(8) {
+                    7 => Kind::Nv(Lit::Array(vec![Lit::Int { digits: "1".into(), text: "1".into() }])),
                     0 => Kind::Nv(Lit::Int { digits: "300".into(), text: "300".into() }),
                     1 => Kind::Nv(Lit::Str { value: "not a number".into(), raw: false }),
                     2 => Kind::Nv(Lit::Float { text: "1.5".into() }),
@@ -543,6 +569,28 @@ pub fn element_tail(rng: &mut Rng, tr: Trait) -> String {
     }
 }
 
+/// an attribute the receiver must neither read nor (unless forwarding everything) forward: a stock
+/// one, or a path that only *resembles* one of the receiver's own names — a leading `::`, an extra
+/// segment before or after — with a body that would change the outcome if it were read
+pub fn foreign_attr(rng: &mut Rng, r: &Recv) -> String {
+    let mut names: Vec<String> = r.attr_names.clone();
+    if let Fwd::Only(l) = &r.forward {
+        names.extend(l.iter().cloned());
+    }
+    if names.is_empty() || !rng.chance(1, 3) {
+        return (*rng.pick(&FOREIGN)).to_string();
+    }
+    let n = rng.pick(&names).clone();
+    match rng.below(6) {
+        0 => format!("#[::{n}(zzz_unknown = 1)]"),
+        1 => format!("#[::{n}]"),
+        2 => format!("#[{n}::x(zzz_unknown = 1)]"),
+        3 => format!("#[x::{n}(\"stray literal\")]"),
+        4 => format!("#[::{n} = \"v\"]"),
+        _ => format!("#[::{n}(!!! not meta)]"),
+    }
+}
+
 /// split an item sequence into 1..5 attributes under the receiver's names, with empty / bare
 /// attributes and foreign attributes interspersed
 pub fn partition(rng: &mut Rng, r: &Recv, items: &[Item], pieces: usize) -> Vec<Attr> {
@@ -552,7 +600,7 @@ pub fn partition(rng: &mut Rng, r: &Recv, items: &[Item], pieces: usize) -> Vec<
         for _ in 0..rng.below(3) {
             attrs.push(Attr {
                 name: String::new(),
-                kind: AttrKind::Foreign((*rng.pick(&FOREIGN)).to_string()),
+                kind: AttrKind::Foreign(foreign_attr(rng, r)),
                 gid: 0,
             });
         }
@@ -577,7 +625,7 @@ pub fn partition(rng: &mut Rng, r: &Recv, items: &[Item], pieces: usize) -> Vec<
         if rng.chance(1, 3) {
             attrs.push(Attr {
                 name: String::new(),
-                kind: AttrKind::Foreign((*rng.pick(&FOREIGN)).to_string()),
+                kind: AttrKind::Foreign(foreign_attr(rng, r)),
                 gid: 0,
             });
         }
@@ -599,7 +647,7 @@ pub fn partition(rng: &mut Rng, r: &Recv, items: &[Item], pieces: usize) -> Vec<
     if rng.chance(1, 3) {
         attrs.push(Attr {
             name: String::new(),
-            kind: AttrKind::Foreign((*rng.pick(&FOREIGN)).to_string()),
+            kind: AttrKind::Foreign(foreign_attr(rng, r)),
             gid: 0,
         });
     }
